@@ -154,6 +154,48 @@ def main(argv):
                 if status != 'ok':
                     raise RuntimeError('file-alone conversion of %s raised %s' % (name, value))
                 res.update({k: WriteLAS.LASWriteResult(*v) for k, v in value.items()})
+        elif spec['mode'] == 'steps':
+            # bounded progress, decided on a logical clock: every file is converted on its own in a forked process under a
+            # LINE-event counter; a conversion that is still running after spec['step_budget'] lines is reported, not waited for
+            import pickle
+            from tdv.mon.hits import StepCounter, StepBudgetExceeded
+            res = {}
+            steps = {}
+            names = []
+            for dp, dn, fn in os.walk(spec['dir_in']):
+                dn.sort()
+                if not recurse:
+                    del dn[:]
+                names += [os.path.relpath(os.path.join(dp, f), spec['dir_in']) for f in sorted(fn)]
+            for name in sorted(names):
+                p = os.path.join(spec['dir_in'], name)
+                rfd, wfd = os.pipe()
+                pid = os.fork()
+                if pid == 0:
+                    try:
+                        os.close(rfd)
+                        sc = StepCounter()
+                        sc.sticky = 200000
+                        conv = real_converter(spec['converter'])
+                        po = os.path.join(spec['dir_out'], name)
+                        os.makedirs(os.path.dirname(po), exist_ok=True)
+                        try:
+                            r, n = sc.run(lambda: conv(p, args[0], po, args[1], set(spec['channels']), args[3], args[4]), budget=spec['step_budget'])
+                            payload = pickle.dumps(('ok', n, bool(r.exception), bool(r.ignored)))
+                        except StepBudgetExceeded:
+                            import traceback
+                            payload = pickle.dumps(('over', sc.n, traceback.format_exc()[-1800:], None))
+                    except BaseException as e:
+                        payload = pickle.dumps(('raised', 0, '%s: %s' % (type(e).__name__, str(e)[:300]), None))
+                    with os.fdopen(wfd, 'wb') as wf:
+                        wf.write(payload)
+                    os._exit(0)
+                os.close(wfd)
+                with os.fdopen(rfd, 'rb') as rf:
+                    blob = rf.read()
+                os.waitpid(pid, 0)
+                steps[name] = list(pickle.loads(blob)) if blob else ['died', 0, 'child died without a result', None]
+            out['steps'] = steps
         else:
             raise ValueError(spec['mode'])
         out['results'] = {_rel(k): _strip_result(v) for k, v in res.items()}
